@@ -25,7 +25,7 @@ def norm_slice(src):
     parameters are the block's free variables"""
     import re
     a = src.find("const uint32_t k = order[dim] + 1;")
-    m = re.search(r"std::unique_ptr<float\[\]>\s+coefficients\(new float\[arraysize\]\);", src[a:]) if a >= 0 else None
+    m = re.search(r"std::unique_ptr<float\[\]>\s+coefficients\(new float\[\w+\]\);", src[a:]) if a >= 0 else None
     if a < 0 or not m:
         from tools.extract import ExtractionError
         raise ExtractionError("normalisation slice anchors not found in convolve.h")
